@@ -47,14 +47,15 @@
 //! with the corresponding verification switch off repairs the answer; the remaining tags are
 //! syntactic/semantic matchers on the description (`syntactic_tag`, `rejection_tag`).
 //! Tags of the kinds added for the remaining public API (all "outcome exactly as predicted" matchers):
-//! * `element-nd-index-aliasing`: element_2d/3d range-check only the linearised index
-//!   `r·cols + c` (`d·rows·cols + r·cols + c`), so an index outside its own dimension reads a
-//!   neighbouring row / layer: `element_2d([[1],[2]], r=0, c=1, v)` gives v = 2;
-//!   `element-nd-ragged-matrix` (malformed stream): rows of different lengths are accepted and read
-//!   with the stride of the first row;
-//! * `cumulative-noop`: `functions::cumulative` passes its disjunction variable to `bool_or` as a third
-//!   operand instead of constraining the result, so it constrains nothing
-//!   (`cumulative-pairwise-only`: what remains once that is repaired — only pairs of tasks are compared);
+//! * `element-nd-ragged-matrix` (malformed stream): element_2d/3d accept a matrix whose rows have different
+//!   lengths, bound every index by the dimensions of the FIRST row / layer and read the flattened cells
+//!   with the stride of the first row: `element_2d([[1],[2,3],[4]], r=2, c=0, v)` gives v = 3.
+//!   (That an index outside its own dimension read a neighbouring row — former matcher
+//!   `element-nd-index-aliasing` — was repaired by `fix:` 41a7aa1.)
+//! * `cumulative-pairwise-only`: `functions::cumulative` is the pairwise decomposition "two tasks whose
+//!   demands together exceed the capacity must not overlap": a single task above the capacity and three
+//!   overlapping tasks are accepted, a zero-duration task wrongly blocks.  (That it constrained nothing at
+//!   all — former matcher `cumulative-noop` — was repaired by `fix:` 0f1b5e9.)
 //! * `float-relative-bound-tolerance`: a float value of the returned solution misses its documented value
 //!   by more than `FTOL` but less than the slack `max(3·step, 1e-5·|bound|)` of `Context::try_set_min/max`.
 use crate::out::{guarded, Out};
@@ -364,13 +365,11 @@ pub struct Quirks {
     ne_noop: bool,
     zero_lin: bool,
     fn_implies: bool,
-    /// element_2d/3d: only the linearised index is range-checked (`element-nd-index-aliasing`)
-    elem_alias: bool,
-    /// cumulative: the disjunction variable is passed to `bool_or` as a third operand, so the unit
-    /// constrains nothing (`cumulative-noop`)
-    cum_noop: bool,
-    /// cumulative: only pairs of tasks are looked at (`cumulative-pairwise-only`; what a repaired
-    /// disjunction would give)
+    /// element_2d/3d over a ragged matrix: every index is bounded by the dimensions of the first row /
+    /// layer, the cell is read with the first row's stride (`element-nd-ragged-matrix`; the documented
+    /// meaning on rectangular matrices)
+    ragged_stride: bool,
+    /// cumulative: only pairs of tasks are looked at (`cumulative-pairwise-only`)
     cum_pairs: bool,
     /// not a defect: the TOLERANT reading of the float → integer conversions (the float value may be
     /// off by `FTOL`), i.e. the set of assignments a returned solution may come from; the exact reading
@@ -943,11 +942,18 @@ pub enum Con {
     Cumulative { starts: Vec<usize>, durs: Vec<i32>, demands: Vec<i32>, cap: i32 },
 }
 
-/// linearised cell of an `element_2d/3d` access as the implementation computes it: the strides come
-/// from the first row / first layer, only the linear index is range-checked
-fn alias_cell<'a>(flat: &[&'a Term], strides: &[i64], idx: &[i64]) -> Option<&'a Term> {
-    let lin: i64 = strides.iter().zip(idx).map(|(s, i)| s * i).sum();
-    if lin < 0 || lin as usize >= flat.len() { None } else { Some(flat[lin as usize]) }
+/// cell of an `element_2d/3d` access as the implementation computes it: every index inside the
+/// dimensions `dims` taken from the first row / first layer, the flattened cells read row-major with
+/// those dimensions
+fn stride_cell<'a>(flat: &[&'a Term], dims: &[i64], idx: &[i64]) -> Option<&'a Term> {
+    let mut lin = 0i64;
+    for (n, i) in dims.iter().zip(idx) {
+        if *i < 0 || *i >= *n {
+            return None;
+        }
+        lin = lin * n + i;
+    }
+    if lin as usize >= flat.len() { None } else { Some(flat[lin as usize]) }
 }
 
 fn show_vs(v: &[usize]) -> String {
@@ -1096,20 +1102,20 @@ impl Con {
             }
             Con::Elem2 { mat, r, c, val } => {
                 let (i, j) = (a[*r], a[*c]);
-                if q.elem_alias {
+                if q.ragged_stride {
                     let flat: Vec<&Term> = mat.iter().flatten().collect();
                     let cols = mat.first().map_or(0, |r| r.len()) as i64;
-                    return Some(cols > 0 && matches!(alias_cell(&flat, &[cols, 1], &[i, j]), Some(t) if cell_val(t, a) == a[*val]));
+                    return Some(matches!(stride_cell(&flat, &[mat.len() as i64, cols], &[i, j]), Some(t) if cell_val(t, a) == a[*val]));
                 }
                 i >= 0 && (i as usize) < mat.len() && j >= 0 && (j as usize) < mat[i as usize].len() && cell_val(&mat[i as usize][j as usize], a) == a[*val]
             }
             Con::Elem3 { cube, d, r, c, val } => {
                 let (k, i, j) = (a[*d], a[*r], a[*c]);
-                if q.elem_alias {
+                if q.ragged_stride {
                     let flat: Vec<&Term> = cube.iter().flatten().flatten().collect();
                     let rows = cube.first().map_or(0, |l| l.len()) as i64;
                     let cols = cube.first().and_then(|l| l.first()).map_or(0, |r| r.len()) as i64;
-                    return Some(rows > 0 && cols > 0 && matches!(alias_cell(&flat, &[rows * cols, cols, 1], &[k, i, j]), Some(t) if cell_val(t, a) == a[*val]));
+                    return Some(matches!(stride_cell(&flat, &[cube.len() as i64, rows, cols], &[k, i, j]), Some(t) if cell_val(t, a) == a[*val]));
                 }
                 k >= 0
                     && (k as usize) < cube.len()
@@ -1132,9 +1138,6 @@ impl Con {
             }
             Con::Cumulative { starts, durs, demands, cap } => {
                 let n = starts.len();
-                if q.cum_noop {
-                    return Some(true);
-                }
                 if q.cum_pairs {
                     // the pairwise decomposition of the implementation
                     return Some((0..n).all(|i| {
@@ -1223,7 +1226,7 @@ impl Case {
         self.cons.iter().all(|c| c.holds(a, q) == Some(true))
     }
     fn brute(&self, q: Quirks) -> Vec<Vec<i64>> {
-        if !q.elem_alias && matches!(self.mal, Some(m) if m.must_be_unsat()) {
+        if matches!(self.mal, Some(m) if m.must_be_unsat()) {
             return vec![];
         }
         let doms = self.doms();
@@ -2082,8 +2085,7 @@ struct Present {
     ne_noop: bool,
     zero_lin: bool,
     fn_implies: bool,
-    elem_alias: bool,
-    cum_noop: bool,
+    ragged_stride: bool,
     cum_pairs: bool,
 }
 
@@ -2095,8 +2097,7 @@ impl Present {
             ne_noop: self.ne_noop,
             zero_lin: self.zero_lin,
             fn_implies: self.fn_implies,
-            elem_alias: self.elem_alias,
-            cum_noop: self.cum_noop,
+            ragged_stride: self.ragged_stride,
             cum_pairs: self.cum_pairs,
             tol: false,
             wide_tol: false,
@@ -2105,7 +2106,7 @@ impl Present {
 }
 
 fn present(case: &Case) -> Present {
-    let mut p = Present { not: false, or: false, ne_noop: false, zero_lin: false, fn_implies: false, elem_alias: false, cum_noop: false, cum_pairs: false };
+    let mut p = Present { not: false, or: false, ne_noop: false, zero_lin: false, fn_implies: false, ragged_stride: false, cum_pairs: false };
     for c in &case.cons {
         match c {
             Con::Fluent { t, style } => {
@@ -2132,8 +2133,10 @@ fn present(case: &Case) -> Present {
             Con::Lin { coeffs, reif: None, .. } => p.zero_lin |= coeffs.iter().all(|c| *c == 0),
             // (functions::implies was a no-op on the pinned tree; repaired by a `fix:` commit, so it is no longer a predicted quirk)
             Con::Implies(_, _, 1) => p.fn_implies = false,
-            Con::Elem2 { .. } | Con::Elem3 { .. } => p.elem_alias = true,
-            Con::Cumulative { .. } => p.cum_noop = true,
+            // (only a ragged matrix — malformed stream — is read differently from the documented meaning)
+            Con::Elem2 { mat, .. } => p.ragged_stride |= mat.iter().any(|r| r.len() != mat[0].len()),
+            Con::Elem3 { cube, .. } => p.ragged_stride |= cube.iter().any(|l| l.len() != cube[0].len() || l.iter().any(|r| r.len() != cube[0][0].len())),
+            Con::Cumulative { .. } => p.cum_pairs = true,
             _ => {}
         }
     }
@@ -2142,15 +2145,14 @@ fn present(case: &Case) -> Present {
     p
 }
 
-fn quirk_singles(p: &Present) -> [(bool, Quirks, &'static str); 8] {
+fn quirk_singles(p: &Present) -> [(bool, Quirks, &'static str); 7] {
     [
         (p.not, Quirks { not_ign: true, ..Quirks::default() }, "not-ignored"),
         (p.or, Quirks { or_and: true, ..Quirks::default() }, "or-lowered-as-and"),
         (p.ne_noop, Quirks { ne_noop: true, ..Quirks::default() }, "neq-noop"),
         (p.zero_lin, Quirks { zero_lin: true, ..Quirks::default() }, "lin-all-zero-coefficients"),
         (p.fn_implies, Quirks { fn_implies: true, ..Quirks::default() }, "fn-implies-noop"),
-        (p.elem_alias, Quirks { elem_alias: true, ..Quirks::default() }, "element-nd-index-aliasing"),
-        (p.cum_noop, Quirks { cum_noop: true, ..Quirks::default() }, "cumulative-noop"),
+        (p.ragged_stride, Quirks { ragged_stride: true, ..Quirks::default() }, "element-nd-ragged-matrix"),
         (p.cum_pairs, Quirks { cum_pairs: true, ..Quirks::default() }, "cumulative-pairwise-only"),
     ]
 }
@@ -2406,17 +2408,6 @@ impl<'a> Tagger<'a> {
         }
         let pred = self.pred.clone().unwrap();
         if pred == self.truth || !self.passes_under(c, call, &pred, all) {
-            // `cumulative` constrains nothing on the pinned tree; with its disjunction repaired it is the
-            // pairwise decomposition: second attempt with that reading
-            if p.cum_noop {
-                let p2 = Present { cum_noop: false, cum_pairs: true, ..p };
-                let all2 = p2.all();
-                let pred2 = self.case.brute(all2);
-                if pred2 != self.truth && self.passes_under(c, call, &pred2, all2) {
-                    let singles = quirk_singles(&p2);
-                    return singles.iter().find(|(here, q, _)| *here && self.case.brute(*q) != self.truth).or_else(|| singles.iter().find(|s| s.0)).map(|s| s.2.to_string());
-                }
-            }
             return None;
         }
         let singles = quirk_singles(&p);
@@ -2436,33 +2427,24 @@ impl<'a> Tagger<'a> {
             let bad_row = self.case.cons.iter().any(|c| matches!(c, Con::Table { vars, tuples, .. } if tuples.iter().any(|t| t.len() != vars.len())));
             let plain_lin = self.case.cons.iter().any(|c| matches!(c, Con::Lin { coeffs, vars, reif: None, .. } if coeffs.len() != vars.len()));
             let reif_lin = self.case.cons.iter().any(|c| matches!(c, Con::Lin { coeffs, vars, reif: Some(_), .. } if coeffs.len() != vars.len()));
-            // element_2d / element_3d: every returned assignment is exactly what the linearised
-            // (first-row stride, only the linear index range-checked) access accepts
-            let alias_q = Quirks { elem_alias: true, ..Quirks::default() };
+            // element_2d / element_3d over a ragged matrix: every returned assignment is exactly what the
+            // first-row-stride access accepts (possibly together with one other defect of the model)
+            let ragged_q = Quirks { ragged_stride: true, ..Quirks::default() };
             let sols: Vec<&SolV> = match &c.res { Res::One(s) => vec![s], Res::Many(v) => v.iter().collect(), _ => vec![] };
-            let has_nd = self.case.cons.iter().any(|c| matches!(c, Con::Elem2 { .. } | Con::Elem3 { .. }));
-            let sound_under = |q: Quirks| has_nd && !sols.is_empty() && sols.iter().all(|s| unsound(self.case, &c.funs, s, q).is_none());
-            let aliased = sound_under(alias_q);
-            // the element_2d/3d units themselves hold under the aliased reading in every returned assignment
-            let nd_aliased = has_nd
-                && !sols.is_empty()
-                && sols.iter().all(|s| {
-                    user_ints(s).is_some_and(|a| self.case.cons.iter().filter(|c| matches!(c, Con::Elem2 { .. } | Con::Elem3 { .. })).all(|c| c.holds(&a, alias_q) == Some(true)))
-                });
-            // index entirely outside its dimension: that the unit was accepted at all is the aliasing
-            // (whatever else the returned assignment violates is judged in the well-formed stream)
-            if m == Mal::ElemIndex && nd_aliased {
-                return "element-nd-index-aliasing".into();
-            }
-            if !aliased && m == Mal::Ragged {
-                // C01 on a ragged matrix: the aliasing together with one other defect of the model
+            let sound_under = |q: Quirks| !sols.is_empty() && sols.iter().all(|s| unsound(self.case, &c.funs, s, q).is_none());
+            let strided = m == Mal::Ragged && sound_under(ragged_q);
+            if m == Mal::Ragged && !strided {
                 let p = present(self.case);
                 for (here, q, t) in quirk_singles(&p) {
-                    if here && !q.elem_alias && sound_under(Quirks { elem_alias: true, ..q }) {
+                    if here && !q.ragged_stride && sound_under(Quirks { ragged_stride: true, ..q }) {
                         return format!("element-nd-ragged-matrix+{t}");
                     }
                 }
-                if nd_aliased {
+                let nd_strided = !sols.is_empty()
+                    && sols.iter().all(|s| {
+                        user_ints(s).is_some_and(|a| self.case.cons.iter().filter(|c| matches!(c, Con::Elem2 { .. } | Con::Elem3 { .. })).all(|c| c.holds(&a, ragged_q) == Some(true)))
+                    });
+                if nd_strided {
                     let t = syntactic_tag(self.case);
                     if t != "-" {
                         return format!("element-nd-ragged-matrix+{t}");
@@ -2470,8 +2452,7 @@ impl<'a> Tagger<'a> {
                 }
             }
             let specific: Option<&str> = match m {
-                Mal::ElemIndex if aliased => Some("element-nd-index-aliasing"),
-                Mal::Ragged if aliased => Some("element-nd-ragged-matrix"),
+                Mal::Ragged if strided => Some("element-nd-ragged-matrix"),
                 Mal::LinLen if reif_lin => Some("lin-reif-length-unchecked"),
                 Mal::ZeroDivisor if has_folded_const_div(self.case, true) => Some("constant-division-by-zero-folded"),
                 Mal::Bounds if matches!(c.res, Res::Panic) => Some("empty-domain-view-panic"),
@@ -2683,7 +2664,7 @@ fn check_call(out: &mut Out, line: usize, case: &Case, truth: &[Vec<i64>], c: &C
                 let p = present(case);
                 let all = p.all();
                 let mut note = "";
-                if ["not-ignored", "or-lowered-as-and", "neq-noop", "lin-all-zero-coefficients", "fn-implies-noop", "element-nd-index-aliasing", "cumulative-noop", "cumulative-pairwise-only"].contains(&t.as_str()) {
+                if ["not-ignored", "or-lowered-as-and", "neq-noop", "lin-all-zero-coefficients", "fn-implies-noop", "element-nd-ragged-matrix", "cumulative-pairwise-only"].contains(&t.as_str()) {
                     if case.brute(all) == dd {
                         out.stat("c03.known-lowering-predicts-exactly");
                         note = " [equals the set predicted by the known lowering defects]";
